@@ -58,6 +58,12 @@ def gen_event(rng, charset):
                 ev[k].encode(charset)
             except UnicodeEncodeError:
                 ev[k] = ev[k].encode(charset, "ignore").decode(charset)
+    if rng.random() < 0.4:
+        # keys as they come out of json.loads / string operations: equal to the literals, but other objects
+        ev = {"".join(list(k)): v for k, v in ev.items()}
+        assert all(k is not lit for k in ev for lit in ("data", "event", "id", "retry"))
+    if "data" in ev and rng.random() < 0.02:
+        ev["data"] = "\n".join(str(j) for j in range(rng.choice([255, 256, 257, 258, 300, 1000])))  # hundreds of lines
     return ev
 
 
@@ -241,6 +247,12 @@ def run(ctx):
             direct(ctx, ev, "utf-8")
             ctx.case((repr(ev), "utf-8"))
         ctx.sample("regression-seed", REGRESSION[0])
+        # the same events through the real responses of both interfaces (blocks of exactly 64 KiB / 128 KiB among them)
+        for k in range(0, len(REGRESSION), 3):
+            evs = REGRESSION[k:k + 3]
+            asgi_stream(ctx, evs, [0] * len(evs), "utf-8")
+            wsgi_stream(ctx, evs, [0] * len(evs), "utf-8")
+            ctx.case(("regression-stream", k))
     for i in range(ctx.scale(40_000, 4_000_000)):
         cs = rng.choice(CHARSETS)
         ev = gen_event(rng, cs)
